@@ -1,6 +1,6 @@
 (* C35 — property theorems only: each closed by [exact lemma], followed by Print Assumptions. *)
 From Coq Require Import List NArith ZArith Bool.
-From Verif Require Import C29.Model C29.Proof C35.Model C35.Proof C35.Subst C35.FailModel C35.FailProof.
+From Verif Require Import C29.Model C29.Proof C35.Model C35.Proof C35.Subst C35.FailModel C35.FailProof C35.FailAgree.
 Import ListNotations.
 
 (* GenericKey (after fix C35-1) determines the argument list: for every pair of (vals, types) vectors of the lengths
@@ -144,6 +144,14 @@ Theorem C35_memo_across_failures : forall ds fuel g d k v s ops av,
 Proof. exact memo_across_failures. Qed.
 Print Assumptions C35_memo_across_failures.
 
+(* the two models agree: when every declaration is available from the start and none is a plain late declaration,
+   the successful compilations of the model with failures are exactly those of C35.Model (same state, same result), so
+   C35_memo / C35_alias_is_substitution / C35_caches_only_grow speak about the successful runs of resolveE *)
+Theorem C35_fail_model_agrees : forall ds av, all_declared ds av ->
+  forall fuel xp sc t s, erase (resolveE fuel ds av xp sc t s) = resolve fuel ds xp sc t s.
+Proof. exact resolveE_agrees. Qed.
+Print Assumptions C35_fail_model_agrees.
+
 (* non-vacuity: generic 0: type Hold#[T] struct{V T; L LateRec};  1: the plain type LateRec, declared LATE;
    generic 2: func Use#[T](x T) { ... Hold#[T] ... LateRec ... }.  Hold#[int] fails, Use#[int] fails inside the nested
    Hold#[int] (both keys removed again: all caches empty), LateRec is declared, Use#[int] now compiles (and leaves
@@ -164,3 +172,5 @@ Example C35_ex_rolled_back_hyp :
                ex_ds_late 0 [AType (TBasic 5)] (empty ex_ds_late) = Err s'
              /\ lookup (empty ex_ds_late) 0 (key_of [AType (TBasic 5)]) = None.
 Proof. eexists. vm_compute. split; reflexivity. Qed.
+Example C35_ex_all_declared : all_declared ex_ds [true; true; true].
+Proof. intros g d H. destruct g as [|[|[|g]]]; simpl in H; try (injection H as <-; split; reflexivity). destruct g; discriminate. Qed.
